@@ -107,6 +107,9 @@ Definition t_state (x : ctx_t) : Z := let '(_, _, _, _, _, _, _, _, _, _, _, _, 
 Definition t_mod (x : ctx_t) : bool := let '(_, _, _, _, _, _, _, _, _, _, _, _, _, _, _, v) := x in v.
 
 Definition is_endblock (st : step) : bool := match st with EndBlock _ => true | _ => false end.
+(** a call message: when the service is served by a module, its request is created, charged and
+    answered inside the message *)
+Definition is_call (st : step) : bool := match st with Tx _ (MCall _ _ _ _ _ _ _ _ _ _) => true | _ => false end.
 
 (** the consumer a request belongs to, looked up in the contexts of an observation *)
 Definition req_consumer (o : obs) (rid : reqid) : Z :=
@@ -134,8 +137,9 @@ Definition actors_of (o : obs) : list Z := filter (Z.leb 0) (nodup Z.eq_dec (map
 
 (** ** C07 on the implementation's own observations.  0 = holds, otherwise the clause:
     1 deposit escrow = sum of binding deposits; 2 request escrow = active fees + earned fees;
-    3 owner tallies = sum of their providers' tallies; 4 over an end-block every account's
-    balance moves by exactly (refunds of its expired requests - fees of its new requests);
+    3 owner tallies = sum of their providers' tallies; 4 over an end-block (and over a call
+    message, which creates a request itself when the service is served by a module) every
+    account's balance moves by exactly (refunds of its expired requests - fees of its new requests);
     5 an answered request pays the provider fee - floor(fee*tax), the tax account floor(fee*tax),
     nobody else; 6 every expired request slashes floor(deposit*fraction) from its binding,
     deposit escrow -> tax account *)
@@ -162,12 +166,14 @@ Definition holds_C07 (c : config) (p : obs) (st : step) (o : obs) : Z :=
     ++ map (fun e => (getz (owner_of o (fst (fst e)), snd (fst e)) (o_oearned o) =?
                         sumz (fun e' => if (snd (fst e') =? snd (fst e)) && (owner_of o (fst (fst e')) =? owner_of o (fst (fst e)))
                                         then snd e' else 0) (o_earned o), 3)) (o_earned o)
-    ++ (if is_endblock st then
+    ++ (if is_endblock st || is_call st then
           flat_map (fun a => map (fun d =>
              (obal o a d - obal p a d =?
                 sumz (fun e => if (req_consumer p (fst e) =? a) && (r_fd (snd e) =? d) then r_fee (snd e) else 0) exps
                 - sumz (fun e => if (req_consumer o (fst e) =? a) && (r_fd (snd e) =? d) then r_fee (snd e) else 0) news, 4)) ds) acts
-          ++ map (fun e =>
+        else [])
+    ++ (if is_endblock st then
+          map (fun e =>
                let n := length (filter (fun x => (req_svc p (fst x) =? fst (fst e)) && (r_prov (snd x) =? snd (fst e))) exps) in
                (match get (fst e) (o_binds o) with
                 | Some b => b_dep_t b =? iter_slash n (c_slash c) (b_dep_t (snd e))
@@ -289,8 +295,10 @@ Definition holds_C08 (seen : list reqid) (tr : track) (sc : sched) (p : obs) (st
            else eqb q q'
        | None => eb && (negb (r_active q) || (r_exp q =? h))
        end, 1)) (o_reqs p)
-    ++ map (fun e => (eb && r_active (snd e) && (r_resp (snd e) =? 0) && (r_height (snd e) =? h)
-                      && (h <? r_exp (snd e)) && negb (existsb (eqb (fst e)) seen), 1)) (created_in p o)
+    ++ map (fun e => (((eb && r_active (snd e) && (r_resp (snd e) =? 0) && (h <? r_exp (snd e)))
+                       (* a module-served call creates its request and answers it inside the message *)
+                       || (is_call st && (o_code o =? 0) && negb (r_active (snd e)) && negb (r_resp (snd e) =? 0)))
+                      && (r_height (snd e) =? h) && negb (existsb (eqb (fst e)) seen), 1)) (created_in p o)
     ++ (if eb then map (fun e => (negb (r_active (snd e)) || (h <? r_exp (snd e)), 1)) (o_reqs o) else [])
     ++ (match st with
         | Tx _ (MRespond rid prov _) =>
